@@ -612,12 +612,23 @@ static void run_mt(std::istream &in, const std::string &kind, int nthr, bool ste
     };
     vh::fut_set<void> sl("sleep");
     std::vector<std::string> evs;
+    // completion callbacks (make_promise) that call the scheduler again: what they did, reported after the completions
+    std::mutex cbmx;
+    std::vector<std::pair<std::size_t, std::string>> cbev;
+    bool sch_alive = true;
     auto poll = [&] {
         std::size_t n0 = evs.size();
         sl.poll(evs);
+        {
+            std::lock_guard g(cbmx);
+            std::sort(cbev.begin(), cbev.end());
+            for (auto &e : cbev) evs.push_back(e.second);
+            cbev.clear();
+        }
         for (std::size_t i = n0; i < evs.size(); ++i) evs[i] += "@" + std::to_string(vt::now_ticks.load());
     };
     auto shutdown = [&] {
+        sch_alive = false;   // a callback run by the destruction must not use the dying scheduler
         // ~scheduler: request_stop, wait for the worker; then every promise still in the vector is dropped
         if (step) {
             // the worker may be in front of the mutex: run the destructor in a helper thread, then let the worker go
@@ -680,6 +691,38 @@ static void run_mt(std::istream &in, const std::string &kind, int nthr, bool ste
             if (w[0] == "sleep") k = sl.add([&] { return sch->sleep_until(TP(tp), ID(id)); });
             else k = sl.add([&](scheduler::promise p) { sch->schedule(ID(id), std::move(p), TP(tp)); });
             // the worker may already be resolving it: its completion is reported by the poll after quiescence
+            head << "sleep#" << k << " ntf=" << (vt::notifies - n0);
+        } else if (w[0] == "cbs") {
+            // cbs <tp> <id> s <tp2> <id2> | cbs <tp> <id> c <id2>: schedule(id, make_promise<void>(callback), tp) - "you can
+            // actually schedule anything" - with a callback that calls the scheduler again when the sleep completes:
+            // sleep_until(tp2, id2) (a timer re-arming itself) or cancel(id2) (a timeout handler).  The callback runs
+            // synchronously in whatever thread resolves the promise (the worker, or the caller of cancel/remove).
+            long long tp = num(1), id = num(2), a = num(4), b = num(5);
+            char act = w.size() > 3 ? w[3][0] : 's';
+            unsigned long n0 = vt::notifies;
+            std::size_t k = sl.v.size();
+            sch_t *sp = sch.get();
+            sl.add([&](scheduler::promise bridge) {
+                sp->schedule(ID(id), make_promise<void>([&, sp, k, act, a, b, bridge = std::move(bridge)](future<void> &f) mutable {
+                    // hand the outcome over to the harness' future #k
+                    try {
+                        f.value();
+                        bridge();
+                    } catch (...) {
+                        bridge(std::current_exception());
+                    }
+                    if (!sch_alive) return;
+                    if (act == 's') {
+                        std::size_t k2 = sl.add([&] { return sp->sleep_until(TP(a), ID(b)); });
+                        std::lock_guard g(cbmx);
+                        cbev.push_back({k, "cbs#" + std::to_string(k) + "=s" + std::to_string(k2)});
+                    } else {
+                        bool r = sp->cancel(ID(a));
+                        std::lock_guard g(cbmx);
+                        cbev.push_back({k, "cbc#" + std::to_string(k) + "=" + (r ? "1" : "0")});
+                    }
+                }), TP(tp));
+            });
             head << "sleep#" << k << " ntf=" << (vt::notifies - n0);
         } else if (w[0] == "w") {
             // step mode: the worker performs its next lock region
